@@ -2875,6 +2875,38 @@ fn literal_to_value(egraph: &egglog_bridge::EGraph, l: &Literal) -> Value {
     }
 }
 
+/// Verification hooks (feature `verif-hooks`, off by default).
+#[cfg(feature = "verif-hooks")]
+impl EGraph {
+    /// The un-instrumented program proofs are checked against, one printed command per entry.
+    pub fn verif_proof_check_program(&self) -> Vec<String> {
+        self.proof_check_program
+            .iter()
+            .map(|c| c.to_string())
+            .collect()
+    }
+
+    /// Re-run the in-tree proof checker on `proof_id` against this e-graph's proof-checking
+    /// program, optionally with the command at index `drop_command` removed.
+    pub fn verif_check_proof(
+        &self,
+        store: &mut proof::ProofStore,
+        proof_id: proof::ProofId,
+        drop_command: Option<usize>,
+    ) -> Result<(), String> {
+        let mut program = self.proof_check_program.clone();
+        if let Some(i) = drop_command
+            && i < program.len()
+        {
+            program.remove(i);
+        }
+        store
+            .check_proof(proof_id, &program)
+            .map(|_| ())
+            .map_err(|e| e.to_string())
+    }
+}
+
 #[derive(Debug, Error)]
 pub enum Error {
     #[error(transparent)]
